@@ -170,7 +170,9 @@ def gen_instance(rnd, family):
                 ib["capacity"] = nj + rnd.choice([0, 1])
             bl = [ib, ob]
             if rnd.random() < 0.3:
-                bl.append({"name": bn[2], "type": rnd.choice(BUF_TYPES), "role": "compensation"})
+                # a further buffer: spare storage, or a second output buffer (the first one in the
+                # document is the one finished jobs are delivered to)
+                bl.append({"name": bn[2], "type": rnd.choice(BUF_TYPES), "role": rnd.choice(["compensation", "compensation", "output"])})
             ic["buffer"] = bl
             meta["ordered_standalone"] = ib["type"] != "flex"
 
